@@ -71,10 +71,13 @@ func v2wfAll(p *psetv2.Pset) (l []string) {
 	}
 	pset := []byte("pset")
 	extra := func(sec byte, props []psetv2.ProprietaryData, unks []psetv2.KeyPair) { // proprietary data and unknowns
-		for _, pd := range props {
-			bad(!bytes.Equal(pd.Identifier, pset), "proprietary-identifier")
-			bad(bytes.Equal(pd.Identifier, pset) && v2stdSub(sec, pd.Subtype), "proprietary-subtype-collision")
-			bad(1+len(v2vs(pset))+1+len(pd.KeyData) > v2MaxKey, "key-size")
+		for _, pd := range props { // any identifier; an empty one means "pset"
+			id := pd.Identifier
+			if len(id) == 0 {
+				id = pset
+			}
+			bad(bytes.Equal(id, pset) && v2stdSub(sec, pd.Subtype), "proprietary-subtype-collision")
+			bad(1+len(v2vs(id))+1+len(pd.KeyData) > v2MaxKey, "key-size")
 		}
 		for _, u := range unks {
 			bad(u.Key.KeyType == 0xfc || v2stdType(sec, u.Key.KeyType), "unknown-keytype-collision")
@@ -92,7 +95,6 @@ func v2wfAll(p *psetv2.Pset) (l []string) {
 	}
 	g := &p.Global
 	bad(g.InputCount != uint64(len(p.Inputs)) || g.OutputCount != uint64(len(p.Outputs)), "count-mismatch")
-	bad(len(p.Inputs) >= 253 || len(p.Outputs) >= 253, "count>=253")
 	for _, x := range g.Xpubs {
 		bad(len(x.ExtendedKey) != 78, "length:xpub")
 		bad(len(x.DerivationPath) < 1, "empty-bip32-path")
@@ -103,8 +105,6 @@ func v2wfAll(p *psetv2.Pset) (l []string) {
 	extra('g', g.ProprietaryData, g.Unknowns)
 	for i := range p.Inputs {
 		in := &p.Inputs[i]
-		bad(in.RequiredHeightLocktime != 0, "height-locktime")
-		bad(in.PeginValue != 0, "pegin-value")
 		bad(len(in.PreviousTxid) != 32, "length:PreviousTxid")
 		bad(!v2lenIs(in.IssuanceValueCommitment, 33) || !v2lenIs(in.IssuanceInflationKeysCommitment, 33), "length:issuance-commitment")
 		bad(!v2lenIs(in.PeginGenesisHash, 32) || !v2lenIs(in.IssuanceBlindingNonce, 32) || !v2lenIs(in.IssuanceAssetEntropy, 32) ||
@@ -216,12 +216,12 @@ func v2rejectDetail(p *psetv2.Pset) string {
 	if !wfPsetV2(p) {
 		other = "bad-length" // some other clause of wf_pset
 	}
-	return v2firstOf(p, other, "height-locktime", "count>=253", "empty-bip32-path")
+	return v2firstOf(p, other, "empty-bip32-path", "witness-utxo<45")
 }
 func v2fieldsDetail(p *psetv2.Pset) string {
-	return v2firstOf(p, "other", "height-locktime", "proprietary-identifier", "proprietary-subtype-collision", "unknown-keytype-collision")
+	return v2firstOf(p, "other", "proprietary-subtype-collision", "unknown-keytype-collision")
 }
-func v2panicDetail(p *psetv2.Pset) string { return v2firstOf(p, "other", "pegin-value") }
+func v2panicDetail(p *psetv2.Pset) string { return "other" }
 
 // the dump compared across a round trip: a nil and an all-zero Modifiable mean the same
 func v2normDump(p *psetv2.Pset) string {
@@ -229,6 +229,27 @@ func v2normDump(p *psetv2.Pset) string {
 	if c.Global.Modifiable != nil && c.Global.Modifiable.Uint8() == 0 {
 		c.Global.Modifiable = nil
 	}
+	s := dumpPsetV2(&c)
+	// an empty ProprietaryData.Identifier means "pset" (proprietaryKeyWithIdentifier)
+	fix := func(l []psetv2.ProprietaryData) []psetv2.ProprietaryData {
+		o := append([]psetv2.ProprietaryData{}, l...)
+		for i := range o {
+			if len(o[i].Identifier) == 0 {
+				o[i].Identifier = []byte("pset")
+			}
+		}
+		return o
+	}
+	c.Global.ProprietaryData = fix(c.Global.ProprietaryData)
+	c.Inputs = append([]psetv2.Input{}, c.Inputs...)
+	for i := range c.Inputs {
+		c.Inputs[i].ProprietaryData = fix(c.Inputs[i].ProprietaryData)
+	}
+	c.Outputs = append([]psetv2.Output{}, c.Outputs...)
+	for i := range c.Outputs {
+		c.Outputs[i].ProprietaryData = fix(c.Outputs[i].ProprietaryData)
+	}
+	_ = s
 	return dumpPsetV2(&c)
 }
 
@@ -251,6 +272,10 @@ func v2serRepeat(p *psetv2.Pset) (b64, st, verdict string) {
 	return b64, st, ""
 }
 
+// clauses of wf_pset that exclude packets the library itself builds (creator / updater / exported
+// struct fields used as documented) or accepts; every other clause excludes malformed values
+var v2libraryShape = map[string]bool{"empty-bip32-path": true, "witness-utxo<45": true}
+
 // C07 on a packet value
 func checkC07Pset(t *Toks) string {
 	v2skipOracle(t)
@@ -261,6 +286,14 @@ func checkC07Pset(t *Toks) string {
 	}
 	if !v2sane(p) || p.Global.InputCount != uint64(len(p.Inputs)) || p.Global.OutputCount != uint64(len(p.Outputs)) {
 		return "SKIP not-sane" // the library would neither build nor accept it
+	}
+	// Direct struct construction can also express values no API call would produce (a garbage
+	// signature, an Unknown carrying a known key type, ...): the property does not speak about those.
+	// Only the clauses below are shapes the library itself builds or accepts.
+	for _, w := range v2wfAll(p) {
+		if !v2libraryShape[w] {
+			return "SKIP not-representable:" + w
+		}
 	}
 	if st != "ok" {
 		return fail("ser.error", "other")
@@ -312,12 +345,30 @@ func checkC07PsetRaw(t *Toks) string {
 	if v2normDump(q) != v2normDump(p) {
 		return fail("reparse.fields", v2fieldsDetail(p))
 	}
-	// an accepted proprietary pair of a foreign identifier is not kept by the parser
+	// every accepted proprietary pair of a foreign identifier must be kept (kind, key and value)
 	nsec := 1 + int(p.Global.InputCount) + int(p.Global.OutputCount)
+	inStream, kept := 0, 0
 	for _, c := range pairs {
 		if id, _, ok := v2propKey(c.key[1:]); c.key[0] == 0xfc && c.sec < nsec && ok && !bytes.Equal(id, []byte("pset")) {
-			return fail("proprietary.foreign-dropped", "")
+			inStream++
 		}
+	}
+	cnt := func(l []psetv2.ProprietaryData) {
+		for _, pd := range l {
+			if !bytes.Equal(pd.Identifier, []byte("pset")) {
+				kept++
+			}
+		}
+	}
+	cnt(p.Global.ProprietaryData)
+	for i := range p.Inputs {
+		cnt(p.Inputs[i].ProprietaryData)
+	}
+	for i := range p.Outputs {
+		cnt(p.Outputs[i].ProprietaryData)
+	}
+	if kept < inStream {
+		return fail("proprietary.foreign-dropped", "")
 	}
 	return "OK"
 }
